@@ -243,6 +243,14 @@ theorem kickstart_is_genesis_partial (cfg : Config) (hash : Bytes) (time : Nat) 
     · rw [if_pos hc, if_pos hc]
     · rw [if_neg hc, if_neg hc]
 
+/-- **The genesis-validity predicate agrees with the specification's.** The code-shaped model of
+`phase0.IsValidGenesisState` (genesis-time test, then a counting loop over the registry with `IsActive`) equals the
+literal `is_valid_genesis_state` (`len(get_active_validator_indices(state, GENESIS_EPOCH))`), for every state and
+configuration. Both are run against the real function on every check (model column / spec column of `valid=`). -/
+theorem isValidGenesis_eq_spec (cfg : Config) (s : State) :
+    Impl.isValidGenesisState cfg s = is_valid_genesis_state cfg s :=
+  isValidGenesisState_eq_spec cfg s
+
 /-- non-vacuity: the construction succeeds (here: on the empty deposit list) -/
 example (cfg : Config) (hash : Bytes) (h : 5 + cfg.GENESIS_DELAY < 2 ^ 64) :
     ∃ s, initialize_beacon_state_from_eth1 cfg hash 5 [] = .ok s := by
